@@ -83,9 +83,9 @@ PROPS = {
     },
     "C02": {
         "level": "exploration",
-        "tests": [{"name": "TestC02", "noasm": True, "quick": 5000, "thorough": 80000}],
+        "tests": [{"name": "TestC02", "noasm": True, "quick": 5000, "thorough": 80000}, {"name": "TestC02Corpus", "kind": "plain"}],
         "fuzz": [{"name": "FuzzC02Synth", "time": "120s"}],
-        "rule": "cases = valid DEFLATE streams from (a) the block-level synthesiser (stored/fixed/dynamic blocks, random complete prefix codes up to 15 bits incl. chain-shaped ones, degenerate single/no distance code, drawn run-length encodings of the header, HLIT/HDIST/HCLEN padding, overlap copies, distances up to 32768, empty blocks, hundreds of tiny blocks, output beyond the 64 KiB history), (b) compress/flate at levels -2..9 and (c) fastgo's own Writers over data recipes with Flushes; x a drawn cyclic sequence of Read buffer sizes; per acceleration level. "
+        "rule": "plus a committed corpus of 452 raw DEFLATE streams written by zlib itself (corpus/zlib, generator corpus/gen_zlib_corpus.py: strategies default/filtered/Huffman-only/RLE/fixed, levels 0..9, windows 2^9..2^15, sync/full/partial flushes incl. empty fixed blocks), each decoded with four Read-size patterns and three delivery variants; cases = valid DEFLATE streams from (a) the block-level synthesiser (stored/fixed/dynamic blocks, random complete prefix codes up to 15 bits incl. chain-shaped ones, degenerate single/no distance code, drawn run-length encodings of the header, HLIT/HDIST/HCLEN padding, overlap copies, distances up to 32768, empty blocks, hundreds of tiny blocks, output beyond the 64 KiB history), (b) compress/flate at levels -2..9 and (c) fastgo's own Writers over data recipes with Flushes; x a drawn cyclic sequence of Read buffer sizes; per acceleration level. "
                 "Oracle: concatenated Read results == compress/flate's output == reference inflater's == synthesiser's by-construction output, then io.EOF, further Reads (0, io.EOF). "
                 "Non-trivial = the reference trace shows at least one of: a 15-bit code, 1-bit code next to >=13-bit, lit/len code >12 bits used, distance code >10 bits used, header run crossing the lit/dist boundary, single/no distance code, stored block at a bit offset, distance >=32000, overlap copy, empty block, >=100 blocks, output >64 KiB.",
         "assumptions": COMMON_ASSUME,
